@@ -45,13 +45,23 @@ SANFLAGS = ["-fsanitize=address", "-fsanitize=bounds,null,integer-divide-by-zero
             "-fno-omit-frame-pointer"]
 
 
+def demo_ldflags(src):
+    """extra linker flags a demonstration asks for in its build_and_run.sh (e.g. -Wl,--wrap=malloc,... for its own allocation ledger)"""
+    import re
+    p = os.path.join(os.path.dirname(src), "build_and_run.sh")
+    if not os.path.exists(p):
+        return []
+    return sorted(set(re.findall(r"-Wl,--wrap=[\w,=\-]+", open(p).read())))
+
+
 def demo(d, src, san=False):
     exe = os.path.join(d, "_demo_san" if san else "_demo")
+    extra = demo_ldflags(src)
     if san:   # demo and library compiled together under the gating sanitizer set (for changes whose symptom is a memory error)
-        cmd = ["gcc", "-O1", "-g", "-w"] + SANFLAGS + ["-I", "include", "-I", "lib", src] + [os.path.join("lib", x) for x in LIBSRC] + ["-logg", "-lm", "-lpthread", "-o", exe]
+        cmd = ["gcc", "-O1", "-g", "-w"] + SANFLAGS + ["-I", "include", "-I", "lib", src] + [os.path.join("lib", x) for x in LIBSRC] + ["-logg", "-lm", "-lpthread", "-o", exe] + extra
     else:
         cmd = ["gcc", "-O1", "-g", "-I", "include", "-I", "lib", src, "_build/lib/libvorbisfile.a", "_build/lib/libvorbisenc.a",
-               "_build/lib/libvorbis.a", "-logg", "-lm", "-lpthread", "-o", exe]
+               "_build/lib/libvorbis.a", "-logg", "-lm", "-lpthread", "-o", exe] + extra
     rc, out = sh(cmd, cwd=d)
     if rc:
         return None, out[-800:]
@@ -95,6 +105,9 @@ def confirm(prop, src, name):
     os.makedirs(dst, exist_ok=True)
     shutil.copy(patch, os.path.join(dst, "patch.diff"))
     shutil.copy(os.path.join(src, "demo.c"), os.path.join(dst, "demo.c"))
+    if demo_ldflags(os.path.join(src, "demo.c")):
+        meta["demo_extra_ldflags"] = demo_ldflags(os.path.join(src, "demo.c"))
+        shutil.copy(os.path.join(src, "build_and_run.sh"), os.path.join(dst, "build_and_run.sh"))
     notes = ""
     if os.path.exists(os.path.join(src, "notes.md")):
         notes = open(os.path.join(src, "notes.md")).read()
